@@ -31,7 +31,7 @@ Proof.
 Qed.
 
 Theorem convert_multipolygon_geometry o d r ds (sc : Geo.Build.gscene) :
-  In r (relations d) -> is_mp r = true ->
+  In r (relations d) -> is_mp r = true -> poly_in_range r = true ->
   sc <> [] ->
   NoDup (concat (Geo.Build.s_outers sc)) -> NoDup (concat (Geo.Build.s_holes sc)) ->
   Forall (fun ring => (3 <= List.length ring)%nat) (Geo.Build.s_outers sc ++ Geo.Build.s_holes sc) ->
@@ -50,7 +50,7 @@ Theorem convert_multipolygon_geometry o d r ds (sc : Geo.Build.gscene) :
     Permutation sc' sc /\ Forall2 Geo.Build.poly_recovered sc' mp /\
     List.length (concat (map (@tl (list pt)) mp)) = List.length (Geo.Build.s_holes sc).
 Proof.
-  intros Hr Hmp Hne Hndo Hndh Hlen Harea Hcont Hok Hco Hci.
+  intros Hr Hmp Hrange Hne Hndo Hndh Hlen Harea Hcont Hok Hco Hci.
   destruct (Geo.Collect.build_polygon_recovers (inclInvalid o) (gnodes d) (gways d) (map gmem (r_members r)) ds sc
               Hne Hndo Hndh Hlen Harea Hcont Hok Hco Hci) as [mp [sc' [Hg [Ht [Hp [Hrec Hcnt]]]]]].
   rewrite poly_result_is_geo in Hg, Ht. cbn [fst snd] in Hg, Ht.
@@ -63,8 +63,7 @@ Proof.
   exists f, mp, sc'. split; [|split; [exact Hrel|split; [|split; [|split; [|split; [exact Hp|split; [exact Hrec|exact Hcnt]]]]]]].
   - unfold convert. apply in_or_app. left. unfold rel_features. apply in_flat_map.
     exists r. split; [exact Hr|]. rewrite Hrel. left. reflexivity.
-  - exact (rel_result_key_exact Mputil.join Mputil.ring_of ring_single_exec o d r f Hrel).
+  - exact (rel_result_key_exact Mputil.join Mputil.ring_of ring_single_exec o d r f (fun _ => Hrange) Hrel).
   - unfold feature_polys. rewrite Hgeom. destruct g; try contradiction; subst; reflexivity.
-  - destruct (poly_result_carries Mputil.join Mputil.ring_of o d r f Hr Hf) as [_ Htaint].
-    rewrite Htaint. unfold mp_tainted. rewrite <- (steps_taint d (r_tags r)). exact Ht.
+  - rewrite (poly_result_taint Mputil.join Mputil.ring_of o d r f Hf). unfold mp_tainted. rewrite <- (steps_taint d (r_tags r)). exact Ht.
 Qed.
